@@ -48,12 +48,13 @@ def run(ctx: Ctx):
 
 def _names(fi):
   """Role names inside rebatched_args, discovered from the statement shapes."""
+  from mlmverif import pat
   roles = {}
   for s in walk_no_nested(fi.node):
     if isinstance(s, ast.Assign) and isinstance(s.targets[0], ast.Name):
       v = unparse(s.value)
       t = s.targets[0].id
-      if v.startswith('[[] for _ in range('):
+      if pat.match('[[] for $i in range($$n)]', s.value) is not None:
         roles.setdefault('buffer', t)
       if v.startswith('np.zeros(') and 'dtype=int' in v:
         roles.setdefault('sizes', t)
@@ -94,12 +95,12 @@ def r1(ctx: Ctx):
              ' index: rows are lost or columns are misaligned', node=fi.node)
   upd = [s for s in walk_no_nested(fi.node) if isinstance(s, ast.AugAssign)
          and unparse(s.target) == sizes and isinstance(s.op, ast.Add)]
-  ok_upd = batch and any(f'for column in {batch}' in unparse(s.value) and '_batch_size(column)' in unparse(s.value)
-                         for s in upd)
+  from mlmverif import pat
+  ok_upd = batch and any(pat.match(f'[_batch_size($c) for $c in {batch}]', s.value) is not None for s in upd)
   if ok_upd:
     ctx.ok(rule, fi, f'{sizes} += sizes of the same batch', upd[0])
   else:
-    ctx.fail(rule, fi, f'rebatched_args: {sizes} += [_batch_size(column) for column in batch]',
+    ctx.fail(rule, fi, 'rebatched_args: sizes += [_batch_size(column) for column in batch]',
              'the running sizes are not updated from the batch that was just'
              ' buffered: flushes happen too early or too late', node=fi.node)
   g = cfgm.cfg_of(fi.node)
@@ -127,6 +128,7 @@ def r1(ctx: Ctx):
 
 
 def r2(ctx: Ctx):
+  from mlmverif import pat
   rule = 'R-C19-2'
   ctx.rule(rule, 'flush: all buffers are concatenated and sliced with the'
            ' target size, zipped strictly; in the slice loop the held slice is'
@@ -178,20 +180,22 @@ def r2(ctx: Ctx):
              'a slice held from the previous iteration is overwritten without'
              ' being emitted (rows lost) or is emitted twice', node=l)
   resets = [n for n in g.nodes if isinstance(n.ast, ast.Assign) and unparse(n.ast.targets[0]) in (buf, sizes)
-            and (unparse(n.ast.value).startswith('[[] for _ in range(') or unparse(n.ast.value).startswith('np.zeros('))]
+            and (pat.match('[[] for $i in range($$n)]', n.ast.value) is not None
+                 or unparse(n.ast.value).startswith('np.zeros('))]
   after = [s for s, lab in it[0].succ if lab == 'false'] if it else []
   reach = g.reachable(after, edge_ok=cfgm.only_normal, include_src=True)
   got = {unparse(n.ast.targets[0]) for n in resets if n in reach}
   if got == {buf, sizes}:
     ctx.ok(rule, fi, 'buffers and sizes reset after the flush', after[0].ast if after and after[0].ast else l)
   else:
-    ctx.fail(rule, fi, f'rebatched_args: reset {buf} and {sizes} after a flush',
+    ctx.fail(rule, fi, 'rebatched_args: reset buffers and sizes after a flush',
              f'after a flush only {sorted(got)} is reset: already emitted rows'
              ' are emitted again', node=l)
   ctx.floor(rule, 3)
 
 
 def r3(ctx: Ctx):
+  from mlmverif import pat
   rule = 'R-C19-3'
   ctx.rule(rule, 'tail: after the slice loop the held slice has exactly one'
            ' disposition on every path (yield / padded yield / carry) before it'
@@ -274,12 +278,12 @@ def r3(ctx: Ctx):
     nx = [s for s, lab in c.succ if lab == 'next']
     if nx and isinstance(nx[0].ast, ast.AugAssign) and unparse(nx[0].ast.target) == sizes and held in unparse(nx[0].ast.value):
       ok_c = True
-    if f'[[column] for column in {held}]' not in unparse(c.ast):
+    if pat.match(f'[[$c] for $c in {held}]', c.ast.value) is None:
       ok_c = False
   if carry and ok_c:
     ctx.ok(rule, fi, 'carry: remainder re-buffered per column with its sizes', carry[0].ast)
   else:
-    ctx.fail(rule, fi, f'rebatched_args: {buf} = [[column] for column in {held}]; {sizes} += sizes',
+    ctx.fail(rule, fi, 'rebatched_args: carry: buffers = [[column] for column in held]; sizes += their sizes',
              'the remainder that does not fill a batch is not carried over'
              ' (with its sizes) into the next flush: rows are lost', node=fi.node)
   ctx.floor(rule, 4)
